@@ -81,7 +81,7 @@ class SimText(io.TextIOBase):
     ``readline`` return short / chunked data, which the ``TextIOBase`` contract allows."""
 
     def __init__(self, text: str, chunk: int = 7, fail_at: int | None = None,
-                 fail_exc: BaseException | None = None) -> None:
+                 fail_exc: BaseException | None = None, fail_consume: int = 0) -> None:
         super().__init__()
         self._t = text
         self._p = 0
@@ -90,6 +90,7 @@ class SimText(io.TextIOBase):
         self._calls = 0
         self._fail_at = fail_at
         self._fail_exc = fail_exc
+        self._fail_consume = fail_consume
         self.fault_fired = False
 
     def _maybe_fail(self) -> None:
@@ -97,6 +98,8 @@ class SimText(io.TextIOBase):
         if self._fail_at is not None and not self.fault_fired and self._calls >= self._fail_at:
             self.fault_fired = True
             assert self._fail_exc is not None
+            # a read that fails has usually consumed part of the stream already
+            self._p = min(len(self._t), self._p + self._fail_consume)
             raise self._fail_exc
 
     def readable(self) -> bool:
@@ -125,6 +128,26 @@ class SimText(io.TextIOBase):
         return out
 
 
+class _WeakHandles:
+    """Handles opened through the seam, held WEAKLY: a handle nobody references any more is
+    finalised (closed) by the interpreter like any real file object."""
+
+    def __init__(self) -> None:
+        import weakref
+
+        self._refs: list[Any] = []
+        self._weakref = weakref
+
+    def append(self, h: Any) -> None:
+        self._refs.append(self._weakref.ref(h))
+
+    def __iter__(self) -> Any:
+        for r in self._refs:
+            h = r()
+            if h is not None:
+                yield h
+
+
 class SimFS:
     def __init__(self, root: str) -> None:
         self.root = os.path.join(os.path.abspath(root), "")
@@ -133,9 +156,10 @@ class SimFS:
         self.split_kinds: dict[tuple[str, int], str] = {}
         self.stats: dict[str, int] = {}
         self.opened: list[tuple[str, str, dict[str, Any]]] = []
-        self.open_handles: list[Any] = []
+        self.open_handles: Any = _WeakHandles()
         self.closed_handles = 0
         self.eio_raised: list[str] = []
+        self.max_open: int | None = None  # simulated per-process limit on open files (EMFILE)
         self._installed: list[tuple[Any, str, Any]] = []
         os.makedirs(self.root, exist_ok=True)
 
@@ -187,6 +211,17 @@ class SimFS:
             return _real_open(file, mode, buffering, encoding, errors, newline, closefd, opener)
         if any(ch in mode for ch in "wax+"):
             raise OSError(errno.EROFS, "simulated disk is read-only", p)
+        if self.max_open is not None:
+            import gc
+
+            alive = [h for h in self.open_handles if not h.closed]
+            if len(alive) >= self.max_open:
+                del alive
+                gc.collect()  # handles nobody references any more are closed by their finalisers
+            alive_n = sum(1 for h in self.open_handles if not h.closed)
+            if alive_n >= self.max_open:
+                self.stats["emfile"] = self.stats.get("emfile", 0) + 1
+                raise OSError(errno.EMFILE, "simulated: too many open files", p)
         q = self.tapes.get(p)
         tape = q.pop(0) if q else {}
         self.opened.append((p, mode, {"encoding": encoding, "newline": newline, "errors": errors}))
@@ -242,14 +277,15 @@ _MISSING = object()
 def make_reader(kind: str, data: bytes, *, fs: SimFS | None = None, path: str | None = None,
                 encoding: str = "utf-8", newline: Any = None, tape: dict[str, Any] | None = None,
                 chunk: int = 7, fail_at: int | None = None,
-                fail_exc: BaseException | None = None) -> Any:
+                fail_exc: BaseException | None = None, fail_consume: int = 0) -> Any:
     """A caller-supplied reader for ``Chart.from_file``."""
     if kind == "stringio":
         enc = "utf-8-sig" if encoding == "utf-8-sig" else "utf-8"
         return io.StringIO(data.decode(enc), newline=newline)
     if kind == "simtext":
         enc = "utf-8-sig" if encoding == "utf-8-sig" else "utf-8"
-        return SimText(data.decode(enc), chunk=chunk, fail_at=fail_at, fail_exc=fail_exc)
+        return SimText(data.decode(enc), chunk=chunk, fail_at=fail_at, fail_exc=fail_exc,
+                       fail_consume=fail_consume)
     if kind == "textio":
         assert fs is not None and path is not None
         raw = fs.raw(path, tape or {})
